@@ -44,6 +44,13 @@ theorem array_byteswap_twice (d : DType) (hd : d.length % 8 = 0) (hpos : 0 < d.l
     (h : arrayByteswap d data = .ok data') : arrayByteswap d data' = .ok data := by
   exact array_byteswap_twice' d hd hpos data data' h
 
+/-- `Array.byteswap` depends on the dtype only through its bit length (= `itemsize`), whatever the family
+    (`bytesN`, `hexN`, `uintN`, `floatN`, …): the driver feeds it `itemBits`. -/
+theorem array_byteswap_bitlength_only (d d' : DType) (h : d.length = d'.length) (data : Bits) :
+    arrayByteswap d data = arrayByteswap d' data := by
+  unfold arrayByteswap
+  rw [h]
+
 /-- `Array.byteswap` raises exactly for items that are not a whole number of bytes. -/
 theorem array_byteswap_error_iff (d : DType) (data : Bits) :
     (arrayByteswap d data).toOption = none ↔ d.length % 8 ≠ 0 := by
